@@ -196,6 +196,9 @@ reads return -/
 def writerReadFrom (reads : List Bytes) : List SnapshotChunk :=
   (reads.filter (fun r => !r.isEmpty)).map (fun r => ⟨r, r.length, 0⟩)
 
+/-- `Writer.Write(p)`: one chunk carrying `p`, whatever its size - also none at all -/
+def writerWrite (p : Bytes) : SnapshotChunk := ⟨p, p.length, 0⟩
+
 /-- `Reader.WriteTo`: the data of every received chunk, in order -/
 def readerWriteTo (chunks : List SnapshotChunk) : Bytes := (chunks.map (·.data)).flatten
 
